@@ -4,8 +4,10 @@ use crate::rng::Rng;
 use crate::{Args, Case};
 
 pub mod frame;
+pub mod qpack;
 pub mod typestate;
 pub mod varint;
+pub mod wire;
 
 /// returns (Coq correspondence module, cases)
 pub fn generate(suite: &str, rng: &mut Rng, thorough: bool) -> (&'static str, Vec<Case>) {
@@ -14,8 +16,19 @@ pub fn generate(suite: &str, rng: &mut Rng, thorough: bool) -> (&'static str, Ve
         "frame" => ("FrameC", frame::generate_frame(rng, thorough)),
         "sheader" => ("FrameC", frame::generate_sheader(rng, thorough)),
         "typestate" => ("StreamTSC", typestate::generate(rng, thorough)),
+        "wire" => ("WireC", wire::generate(rng, thorough)),
+        "qpack" => ("QpackC", qpack::generate(rng, thorough)),
+        "settings" => ("WireC", only(wire::generate(rng, thorough), 401, 402)),
+        "dgram" => ("WireC", only(wire::generate(rng, thorough), 403, 404)),
+        "capsule" => ("WireC", only(wire::generate(rng, thorough), 405, 406)),
+        "ids" => ("WireC", only(wire::generate(rng, thorough), 407, 407)),
+        "status" => ("WireC", only(wire::generate(rng, thorough), 408, 409)),
         _ => panic!("unknown suite {}", suite),
     }
+}
+
+fn only(cs: Vec<Case>, lo: u32, hi: u32) -> Vec<Case> {
+    cs.into_iter().filter(|c| c.f >= lo && c.f <= hi).collect()
 }
 
 pub fn exec(f: u32, args: &Args) -> Args {
@@ -23,6 +36,8 @@ pub fn exec(f: u32, args: &Args) -> Args {
         1 => varint::exec(f, args),
         2 => frame::exec(f, args),
         3 => typestate::exec(f, args),
+        4 => wire::exec(f, args),
+        5 => qpack::exec(f, args),
         _ => panic!("unknown function id {}", f),
     }
 }
@@ -37,6 +52,8 @@ pub fn oracle(f: u32, args: &Args, out: &Args) -> Option<(&'static str, String)>
         1 => varint::oracle(f, args, out),
         2 => frame::oracle(f, args, out),
         3 => typestate::oracle(f, args, out),
+        4 => wire::oracle(f, args, out),
+        5 => qpack::oracle(f, args, out),
         _ => None,
     }
 }
